@@ -16,6 +16,27 @@ class Other:
         return "Other(%d)" % self.tag
 
 
+class Synced:
+    """The LIVE synced collection behind handle `h`, passed as a value (`a['x'] = a['y']`,
+    `lst.append(other_obj)`); `plain` is its content at that moment, which is what the model and the
+    built-in reference are given: a synced argument is a value like any other."""
+
+    def __init__(self, h, plain):
+        self.h = h
+        self.plain = plain
+
+    def __repr__(self):
+        return "Synced(%r, %r)" % (self.h, self.plain)
+
+
+RUNNER = [None]     # the Runner of the program being executed (resolves Synced arguments)
+
+
+class ProgramInvalid(Exception):
+    """a (shrunk) program is not meaningful any more - e.g. the content recorded for a live synced
+    argument is not what the source holds; never an outcome of the code under test"""
+
+
 def enc_str(s):
     return "S" + ".".join(str(ord(c)) for c in s)
 
@@ -47,6 +68,8 @@ def enc(v):
         return enc_str(v)
     if isinstance(v, Other):
         return "O%d" % v.tag
+    if isinstance(v, Synced):
+        return enc(v.plain)
     if isinstance(v, (list, tuple)):
         return "[ " + "".join(enc(x) + " " for x in v) + "]"
     if isinstance(v, (bytes, bytearray)):
@@ -150,6 +173,21 @@ KEPT_ITERATORS = []
 
 def apply_call(obj, name, args):
     """Perform the public call on the real (or built-in) object and return the raw result."""
+    if any(isinstance(a, Synced) for a in args):
+        # a live synced collection as the argument (for a built-in object: its plain content)
+        import copy
+        if _is_synced(obj):
+            for a in args:
+                if isinstance(a, Synced):
+                    try:
+                        src = RUNNER[0].target(a.h)
+                        same = repr(src._to_base()) == repr(a.plain)
+                    except Exception:  # noqa: BLE001
+                        same = False
+                    if not same:
+                        raise ProgramInvalid("the content recorded for %s is not what it holds" % a.h)
+        args = [(RUNNER[0].target(a.h) if _is_synced(obj) else copy.deepcopy(a.plain)) if isinstance(a, Synced) else a
+                for a in args]
     if name in ("diternext", "liternext"):
         # an iterator that is advanced once and then KEPT (a stored zip, a loop left by an
         # exception): whatever it holds on to stays held
@@ -425,6 +463,7 @@ class Runner:
         self.known_res = set()
         WORLD[0] = world
         OPERAND_RES[0] = 900
+        RUNNER[0] = self
 
     # ---- rendering
     def _plain(self, obj):
@@ -541,6 +580,8 @@ class Runner:
             obj = self.target(h)
             try:
                 r = apply_call(obj, name, args)
+            except ProgramInvalid:
+                raise
             except Exception as e:  # noqa: BLE001
                 return [self.err_line(e), self.state_line()]
             return ["ok " + self.show_result(result_shape(name, args), r), self.state_line()]
